@@ -82,7 +82,8 @@ def check_prog(ctx, r, prog, n, table_cells):
                 data, exp = make_cell(rng, prog, canon, m, cell)
                 if exp[0] == "skip":
                     continue
-                payload, pargs, _ = draw_payload(rng, prog, canon, m["payload"], m["payload_names"])
+                from .replies import payload_for_name
+                payload, pargs, _ = payload_for_name(r, rng, prog, canon, name, tb["names"][name], m["payload_names"])
                 rep = {"id": ids[name], "payload": payload, "gas_used": rng.randrange(10**6),
                        "result": {"ok": {"events": draw_events(rng), "data": data, "msg_responses": []}}}
                 path = paths[it % 3]
